@@ -316,6 +316,26 @@ def model_val_case(ctx, case):
             ctx.violation(dict(sig, q="metric_shape", key="max_reward"), f"max_reward has shape {tuple(mr.shape)}, expected one value per (instance, augmentation): {want_shape}", dict(S=S_, A=A_, B=B))
             return
     ba = out.get("best_aug_actions") if A_ > 1 else out.get("best_multistart_actions")
+    if ba is not None and ba.dim() == 3 and ba.shape[1] == 1:
+        ba = ba.squeeze(1)  # num_augment = 1: one (trivial) augmentation group per instance
+    if ba is not None and not (ba.dim() == 2 and ba.shape[0] == B):
+        # one best action sequence per instance is what "best" means here; anything else cannot be "exactly that rollout's actions"
+        ctx.violation(dict(sig, q="best_actions_shape"), f"the reported best actions have shape {tuple(ba.shape)} for {B} instances (one sequence per instance expected)", dict(S=S_, A=A_, B=B))
+        return
+    bm = out.get("best_multistart_actions") if (S_ > 1 and A_ > 1) else None
+    if bm is not None:
+        # with both factors: one best-start sequence per (instance, augmentation), and it must be that group's best rollout
+        if not (bm.dim() == 3 and tuple(bm.shape[:2]) == (B, A_)):
+            ctx.violation(dict(sig, q="best_actions_shape", key="best_multistart_actions"), f"best_multistart_actions has shape {tuple(bm.shape)}, expected one sequence per (instance, augmentation): ({B}, {A_}, len)", dict(S=S_, A=A_, B=B))
+            return
+        ctx.count("c15_best_start_groups", B * A_)
+        for b in range(B):
+            for a in range(A_):
+                grp = [O.objective(insts[b], strip(acts[s_ * (A_ * B) + a * B + b].tolist(), name)) for s_ in range(S_)]
+                v = O.objective(insts[b], strip(bm[b, a].tolist(), name))
+                if abs(v - max(grp)) > tol(max(grp)):
+                    ctx.violation(dict(sig, q="best_start_actions"), f"instance {b}, augmentation {a}: the reported best-start actions have objective {v}, the best of that group's {S_} starts has {max(grp)}", dict(S=S_, A=A_, B=B))
+                    return
     if ba is not None and ba.shape[0] == B and ba.dim() == 2:
         for b in range(B):
             v = O.objective(insts[b], strip(ba[b].tolist(), name))
